@@ -48,6 +48,6 @@ LEVEL_TEXT = ("CrossHair executes the real builders and validators on arbitrary 
 LEVEL_NOTE = "Trusted: S1, S3, S4 (live guard prefix executed), S7'."
 TECHNIQUE = CH_TECH
 EXPLANATION = "see obligation_table"
-BOUNDS = "<=3 (quick) / <=4 (thorough) tempo data; ints unbounded"
+BOUNDS = "<=3 (quick) / <=4 (thorough) tempo data in the builders; 5 (3-7) tempo events with a zero tempo at any position in the lookup; whole sync sections with 3 tempo lines; ints unbounded"
 OUTSIDE = "more tempo data than the bound"
 ASSUMPTIONS = [S1, S3, S4]
